@@ -1005,9 +1005,12 @@ pub fn has_duplicate_siblings(n: &Node) -> bool {
         Node::Occur(items) => {
             dup(&items.iter().collect::<Vec<_>>()) || items.iter().any(|(_, x)| has_duplicate_siblings(x))
         }
-        Node::OrOfAnds(groups) => groups
-            .iter()
-            .any(|g| dup(&g.iter().collect::<Vec<_>>()) || g.iter().any(|(_, x)| has_duplicate_siblings(x))),
+        Node::OrOfAnds(groups) => {
+            (0..groups.len()).any(|i| (0..i).any(|j| groups[i] == groups[j]))
+                || groups
+                    .iter()
+                    .any(|g| dup(&g.iter().collect::<Vec<_>>()) || g.iter().any(|(_, x)| has_duplicate_siblings(x)))
+        }
         Node::Group { inner, .. } => has_duplicate_siblings(inner),
     }
 }
